@@ -12,6 +12,7 @@ import (
 	"os"
 	"path/filepath"
 	"runtime"
+	"runtime/debug"
 	"sort"
 	"strconv"
 	"sync"
@@ -308,7 +309,14 @@ func Main(id string, hs ...Harness) {
 		st := &HarnessStats{Exhaustive: true}
 		r.stats[h.Name] = st
 		t0 := time.Now()
-		h.Explore(r)
+		EscapedPanic = func(p any, stack []byte) {
+			st := string(stack)
+			if len(st) > 1500 {
+				st = st[:1500]
+			}
+			r.Violation(Case{Harness: "(escaped panic in " + h.Name + ")", Trace: J("not individually replayable; rerun the check"), Msg: fmt.Sprintf("panic outside a guarded check: %v\n%s", p, st), Step: -1})
+		}
+		protect(func() { h.Explore(r) })
 		st.WallS = time.Since(t0).Seconds()
 		fmt.Printf("[%s] %s: states=%d transitions=%d evaluations=%d nontrivial=%d exhaustive=%v violations_so_far=%d (%.1fs)\n",
 			id, h.Name, st.States, st.Transitions, st.Evaluations, st.Nontrivial, st.Exhaustive, r.NumViolations(), st.WallS)
@@ -534,6 +542,20 @@ func J(v any) json.RawMessage {
 	return b
 }
 
+// EscapedPanic is called when code under test panics outside a guarded
+// check (harness bookkeeping that calls into the library). Main turns it into
+// a violation; it is never silently dropped.
+var EscapedPanic = func(p any, stack []byte) { panic(p) }
+
+func protect(f func()) {
+	defer func() {
+		if p := recover(); p != nil {
+			EscapedPanic(p, debug.Stack())
+		}
+	}()
+	f()
+}
+
 // ParallelFor runs f(i) for i in [0,n) on w workers.
 func ParallelFor(n, w int, f func(i int)) {
 	if w < 1 {
@@ -544,7 +566,7 @@ func ParallelFor(n, w int, f func(i int)) {
 	}
 	if w <= 1 {
 		for i := 0; i < n; i++ {
-			f(i)
+			protect(func() { f(i) })
 		}
 		return
 	}
@@ -559,7 +581,7 @@ func ParallelFor(n, w int, f func(i int)) {
 				if i >= n {
 					return
 				}
-				f(i)
+				protect(func() { f(i) })
 			}
 		}()
 	}
